@@ -102,6 +102,12 @@ def make_read_assignment(rng):
                             rng.choice([None, "t1", "tr_%d" % rng.randrange(9)]),
                             [ev() for _ in range(rng.randint(0, 3))], rng.choice(["+", "-", "."]),
                             rng.choice([0, 0.5, 1.25, rng.randrange(2 ** 20) / 2 ** 20 * 7]))
+        # the constructor filters events of type `none` out of a list it is given; the pipeline also hands it single events and assigns
+        # the list directly (categorize_correct_splice_match, verify_read_ends), so every member of the enum can be in a saved match
+        if rng.random() < .3:
+            m.match_subclassifications = [ev() for _ in range(rng.randint(1, 3))]
+            if rng.random() < .5:
+                m.match_subclassifications[rng.randrange(len(m.match_subclassifications))] = ia.MatchEvent(ia.MatchEventSubtype.none)
         return m
     ra = ia.ReadAssignment(_rand_str(rng), rng.choice(list(ia.ReadAssignmentType)), [im() for _ in range(rng.randint(0, 3))])
     ra.assignment_id = rng.randrange(2 ** 32)
